@@ -35,13 +35,13 @@ def collect(res, rng, nruns, max_cases, kind="sh", integ="exp"):
             zl = [rng.choice([1e-9, 1e-9, 2.0]) for _ in range(nsteps + 5)]      # an attempt in most passes
         if kind == "cum":
             pois = False
-            zl = [rng.choice([rng.random() * 0.02, rng.random() * 0.002, rng.random() * 0.3]) for _ in range(rng.choice([1, 30, 30]))]
+            zl = [rng.choice([rng.random() * 0.02, rng.random() * 0.002, rng.random() * 0.3]) * (0.02 if integ == "rk4" else 1.0) for _ in range(rng.choice([1, 30, 30]))]      # rk4 runs use small steps: small thresholds so that attempts happen
         cls = dict(sh=mudslide.TrajectorySH, eh=mudslide.Ehrenfest, cum=mudslide.TrajectoryCum)[kind]
         kw = dict(hopping_probability="poisson" if pois else "tully") if kind == "sh" else {}
         if integ == "rk4":
             kw["electronic_integration"] = "linear-rk4"; dt = rng.choice([0.5, 1.0, 2.0, 0.7, 1.3, 2.4]) if nd == 1 else rng.choice([1.0, 0.9])
         if kind == "cum" and rng.random() < 0.5:
-            kw = dict(hopping_probability="poisson")       # the option belongs to plain FSSH; the cumulative class accumulates the unscaled rates either way
+            kw = dict(kw, hopping_probability="poisson")       # the option belongs to plain FSSH; the cumulative class accumulates the unscaled rates either way
         a0 = rng.randrange(n) if rng.random() < 0.4 else 0
         tr = cls(model, x0, p0, a0, dt=dt, max_steps=nsteps, zeta_list=list(zl), seed_sequence=rng.randrange(2 ** 31), **kw)
         if kind == "eh" and (it % 3 != 2):
